@@ -76,8 +76,23 @@ static int check( const char* name, const std::vector< decl >& decls )
     }
     return 0;
 }
+// 64 primary services with one UUID, MTU 400: Find By Type Value has 256 octets of handle information to return
+template < int N > using many_svc = bluetoe::service< bluetoe::service_uuid16< 0x1234 >, chr< 0x1000 + N, &v1 > >;
+template < int... N > struct many { using type = bluetoe::server< bluetoe::max_mtu_size< 400 >, bluetoe::no_gap_service_for_gatt_servers, many_svc< N >... >; };
+using many_t = many< 0,1,2,3,4,5,6,7,8,9,10,11,12,13,14,15,16,17,18,19,20,21,22,23,24,25,26,27,28,29,30,31,32,33,34,35,36,37,38,39,40,41,42,43,44,45,46,47,48,49,50,51,52,53,54,55,56,57,58,59,60,61,62,63 >::type;
+static int long_response()
+{
+    many_t srv; conn_of< many_t > cd; cd.client_mtu( 400 );
+    const std::uint8_t req[] = { 0x06, 0x01, 0x00, 0xff, 0xff, 0x00, 0x28, 0x34, 0x12 };
+    std::uint8_t out[ 401 ]; out[ 400 ] = 0xEE; std::size_t n = 400;
+    srv.l2cap_input( req, sizeof( req ), out, n, cd );
+    if ( !( n == 1 + 64 * 4 && out[ 0 ] == 0x07 && out[ 400 ] == 0xEE ) ) {
+        std::printf( "REPRODUCED: 64 primary services 0x1234, MTU 400: Find By Type Value returned %zu octets (%02x ..), 64 groups are %d octets\n", n, out[ 0 ], 1 + 64 * 4 ); return 1; }
+    return 0;
+}
 int main( int, char** )
 {
+    if ( long_response() ) return 1;
     const std::vector< std::uint8_t > u1 = { 0x11, 0x11 }, u2 = { 0x22, 0x22 }, u3 = { 0x33, 0x33 };
     const std::vector< std::uint8_t > u4 = { 0xA9, 0x3C, 0xC7, 0x5B, 0xED, 0x4E, 0x8A, 0xA2, 0x9F, 0x49, 0xE2, 0x0D, 0x94, 0x40, 0x8B, 0x8C }, u5 = { 0xAA, 0x3C, 0xC7, 0x5B, 0xED, 0x4E, 0x8A, 0xA2, 0x9F, 0x49, 0xE2, 0x0D, 0x94, 0x40, 0x8B, 0x8C };
     using G = bluetoe::no_gap_service_for_gatt_servers;
